@@ -77,7 +77,9 @@ func g1sum(ps ...*math.G1) *math.G1 {
 // forgery: "" (honest);
 // "plant-b" / "plant-a": offset planted in d_j / f_j, then b_j / a_j moved after the challenge (accepted iff b_j / a_j is not bound);
 // "solve-d" / "solve-f" / "solve-s": the statement is false from the start (B[j] or A[j] hides another value than committed), the
-// challenge is computed over a decoy for the one proof commitment named, which is solved for afterwards (accepted iff it is not bound).
+// challenge is computed over a decoy for the one proof commitment named, which is solved for afterwards (accepted iff it is not bound);
+// "shift-pair": B[j] and B[j+1] hide m_j+delta and m_{j+1}-delta, everything else honest (accepted iff the per-component ciphertext
+// equations are only checked in aggregate).
 //
 // skip names a component class that this prover leaves out of its challenge ("" = none). The self-check tries "" first; if only
 // a prover that skips a class is accepted by the real signer, the real challenge does not bind that class, and the forgeries
@@ -115,6 +117,13 @@ func externalRequest(L int, rng *mrand.Rand, forgery string, j int, skip string)
 	enc := append([]*math.Zr{}, m...) // what the ciphertexts hide
 	if forgery == "solve-d" || forgery == "solve-s" {
 		enc[j] = zadd(m[j], delta)
+	}
+	if forgery == "shift-pair" {
+		// the ciphertexts hide a vector in which a shift moves from component j to the next one: the SUM of the hidden values is the
+		// sum of the committed ones. The proof is computed with the responses for the committed values; a verifier that checks the
+		// ciphertext equations only in aggregate (one product instead of one equation per component) accepts it.
+		enc[j] = zadd(m[j], delta)
+		enc[(j+1)%n] = zsub(m[(j+1)%n], delta)
 	}
 	for i := 0; i < n; i++ {
 		r[i] = rz()
